@@ -282,7 +282,8 @@ func Main(args []string) {
 	for _, fam := range []struct {
 		key, kind string
 		list      func() []Scenario
-	}{{"guards", "guard-not-enforced", GuardScenarios}, {"whenkeys", "when-changed-wrong-count", WhenKeyScenarios}} {
+	}{{"guards", "guard-not-enforced", GuardScenarios}, {"whenkeys", "when-changed-wrong-count", WhenKeyScenarios},
+		{"callvars", "callee-does-not-see-passed-variable", CallVarScenarios}} {
 		if o.Extra[fam.key] == "" || o.Replay != "" {
 			continue
 		}
